@@ -313,6 +313,61 @@ def h_dirty(params, env=None):
     return fn
 
 
+def h_commitfault(params, env=None):
+    """a storage write fails once in the middle of a commit that covers several dirty entries (e.g. sqlite 'database is locked');
+    the engine retries the commit: afterwards storage must again equal the live entries - no entry may have silently left the
+    dirty set (seed C08-E)"""
+    def fn():
+        e = env or SymEnv()
+        _lab.reset()
+        from cloudsync.types import FILE, DIRECTORY
+        provs = (_lab.mk_provider(False), _lab.mk_provider(False))
+        store = DictStorage()
+        st = S.SyncState(provs, store, tag="t")
+        st.update(0, FILE, "o1", path="/a", hash=b"h1", exists=True)
+        st.update(1, FILE, "p1", path="/x", hash=b"k1", exists=True)
+        st.update(0, DIRECTORY, "o2", path="/d", exists=True)
+        st.storage_commit()
+        ents = sorted(st.get_all(discarded=True), key=lambda x: x._hseq)
+        touched = []
+        for i, en in enumerate(ents):
+            kind = e.choose("touch", 4)          # 0 untouched, 1 new hash, 2 trashed, 3 new path
+            touched.append(kind)
+            side = 0 if en[0].oid else 1
+            if kind == 1:
+                en[side].hash = b"new-%d" % i
+            elif kind == 2:
+                en[side].exists = S.TRASHED
+            elif kind == 3:
+                en[side].path = "/moved%d" % i
+        if e.choose("new_entry", 2):
+            st.update(1, FILE, "p9", path="/fresh", hash=b"k9", exists=True)
+            touched.append("new")
+        fail_at = 1 + e.choose("fail_at", 4)
+        n = [0]
+
+        class Locked(Exception):
+            pass
+
+        def hook(kind, tag, eid):
+            n[0] += 1
+            if n[0] == fail_at:
+                raise Locked("database is locked")
+        store.hook = hook
+        failed = False
+        try:
+            st.storage_commit()
+        except Locked:
+            failed = True
+        store.hook = None
+        st.storage_commit()                       # the retry (SyncManager commits again after every step)
+        why = decoded_equals(store, st)
+        if why:
+            return {"ok": False, "info": {"why": "after a failed and a retried commit: " + why, "touched": touched, "fail_at": fail_at, "failed": failed}}
+        return {"ok": True, "key": repr((touched, fail_at, failed)), "nontrivial": failed}
+    return fn
+
+
 OPS = ["create_a", "create_b", "write_a", "delete_a", "rename_a_b", "mkdir_d", "rmdir_d", "move_a_d", "rendir_d_e", "mkdir_d_s", "create_d_a"]
 
 
@@ -428,7 +483,7 @@ def _mut(params, env=None):
     return fn
 
 
-HARNESSES = {"codec": h_codec, "legacy": h_legacy, "dirty": h_dirty, "engine": h_engine, "dirty~sync_path-not-dirty": _mut}
+HARNESSES = {"codec": h_codec, "legacy": h_legacy, "dirty": h_dirty, "commitfault": h_commitfault, "engine": h_engine, "dirty~sync_path-not-dirty": _mut}
 
 
 def _sig(harness, params, info, exc=None):
@@ -463,6 +518,7 @@ def jobs(tier):
         {"harness": "codec", "params": {"group": "B"}, "label": "codec/round-trip/ids x paths x times x type"},
         {"harness": "legacy", "params": {}, "label": "codec/legacy-rows"},
         {"harness": "dirty", "params": {"K": 1 if q else 2}, "label": "dirty/%d-assignments" % (1 if q else 2)},
+        {"harness": "commitfault", "params": {}, "label": "commit/one-write-fails-then-retry"},
         {"harness": "dirty~sync_path-not-dirty", "params": {"K": 1}, "label": "dirty~sync_path-not-dirty", "role": "sens"},
     ]
     for f in (("oid", "path") if q else ("oid", "path", "mixed", "oid-ci")):
